@@ -95,6 +95,15 @@ func (f *Defgeneric) Call(s *slip.Scope, args slip.List, depth int) slip.Object 
 		fd.Args[i] = &slip.DocArg{Name: string(sym)}
 	}
 	aux := NewAux(&fd)
+	var existing *slip.FuncInfo
+	if fi := slip.FindFunc(string(name)); fi != nil {
+		if old, isGeneric := fi.Aux.(*Aux); isGeneric && old.reqCnt == aux.reqCnt {
+			// Evaluating a defgeneric again keeps the generic function and
+			// the methods it has, calls compiled earlier stay connected.
+			aux = old
+			existing = fi
+		}
+	}
 	for _, a := range args[2:] {
 		var option slip.List
 		if option, ok = a.(slip.List); !ok || len(option) < 2 {
@@ -116,6 +125,12 @@ func (f *Defgeneric) Call(s *slip.Scope, args slip.List, depth int) slip.Object 
 		default:
 			slip.TypePanic(s, depth, "option keyword", option[0], "symbol")
 		}
+	}
+	if existing != nil {
+		if 0 < len(fd.Text) && existing.Doc != nil {
+			existing.Doc.Text = fd.Text
+		}
+		return existing
 	}
 	return slip.CurrentPackage.Define(
 		func(args slip.List) slip.Object {
